@@ -9,7 +9,7 @@ Open Scope Z_scope.
 (* For EVERY call tree (any depth, any number and placement of precompile calls, reverts, failures, caught or
    propagated), every native store and keeper semantics: journal-based execution = "a failed frame has no effect",
    on the native store, the logs, the native events and contract storage; and the receipt status agrees. *)
-Theorem C09_journal_refines_spec : forall (N eff : Type) (apply : eff -> N -> N * bool) body en s,
+Theorem C09_journal_refines_spec : forall (N eff : Type) (apply : eff -> N -> N * status) body en s,
   wf_fl eff body = true ->
   let '(si, oki) := run_impl N eff apply body en s in
   let '(ss, oks) := run_spec N eff apply body en s in
@@ -19,7 +19,7 @@ Proof. exact journal_refines_spec. Qed.
 Print Assumptions C09_journal_refines_spec.
 
 (* a failed transaction hands Commit exactly the state it started from *)
-Theorem C09_failed_tx_no_effect : forall (N eff : Type) (apply : eff -> N -> N * bool) body en s,
+Theorem C09_failed_tx_no_effect : forall (N eff : Type) (apply : eff -> N -> N * status) body en s,
   wf_fl eff body = true ->
   snd (run_impl N eff apply body en s) = false ->
   seq N (fst (run_impl N eff apply body en s)) s.
@@ -27,7 +27,7 @@ Proof. exact failed_tx_no_effect. Qed.
 Print Assumptions C09_failed_tx_no_effect.
 
 (* running out of gas (or any other cut) at any position of any frames is covered *)
-Theorem C09_gas_cut_anywhere : forall (N eff : Type) (apply : eff -> N -> N * bool) body en body' en' s,
+Theorem C09_gas_cut_anywhere : forall (N eff : Type) (apply : eff -> N -> N * status) body en body' en' s,
   wf_fl eff body = true ->
   cut eff (Frame body en false) (Frame body' en' false) ->
   let '(si, oki) := run_impl N eff apply body' en' s in
@@ -39,7 +39,7 @@ Print Assumptions C09_gas_cut_anywhere.
 
 (* in the words of the property: an effect is kept iff its own action succeeded, every enclosing action and
    frame returned normally, and the transaction succeeded *)
-Theorem C09_effect_survives_iff : forall body en m, wf_fl meff body = true ->
+Theorem C09_effect_survives_iff : forall body en m, wf_fl meff body = true -> no_panic_list body = true ->
   (In m (s_nat (fst (m_run_impl body en))) <-> frame_kept body en = true /\ kept_in_list m body).
 Proof. exact effect_survives_iff. Qed.
 Print Assumptions C09_effect_survives_iff.
@@ -80,6 +80,23 @@ Theorem C09_table_actions_wf : forall (eff : Type) m p (l : nodes eff) evs,
   wf_f eff (Action l evs) = true.
 Proof. exact table_actions_wf. Qed.
 Print Assumptions C09_table_actions_wf.
+
+(* a keeper panic is not an EVM failure: nothing in the precompile code intercepts it (generated facts), so it aborts
+   the transaction — in the model: status Panic, nothing published, covered by C09_journal_refines_spec *)
+Theorem C09_table_panics_abort :
+  staking_run_recovers = false /\ crosschain_run_recovers = false /\
+  staking_pkg_recover_calls = 0 /\ crosschain_pkg_recover_calls = 0 /\
+  forallb (fun m => negb (pm_defers m)) methods = true.
+Proof. exact table_panics_abort. Qed.
+Print Assumptions C09_table_panics_abort.
+
+Theorem C09_panic_aborts_everything :
+  wf_fl meff ex_panic = true /\ no_panic_list ex_panic = false /\
+  snd (m_run_impl ex_panic Return) = false /\
+  s_nat (fst (m_run_impl ex_panic Return)) = [] /\ s_logs (fst (m_run_impl ex_panic Return)) = [] /\
+  s_stor (fst (m_run_impl ex_panic Return)) 1 = 0 /\ s_stor (fst (m_run_impl ex_panic Return)) 2 = 0.
+Proof. exact panic_aborts_everything. Qed.
+Print Assumptions C09_panic_aborts_everything.
 
 (* the dependency sources the model transcribes are the audited ones *)
 Theorem C09_deps_pinned : dep_digests = pinned_digests.
